@@ -80,6 +80,9 @@ type pipeOp struct {
 	Name   string `json:"op"`
 	N      int    `json:"n,omitempty"`
 	Custom bool   `json:"custom_err,omitempty"`
+	// reader Close on the file backend: the owner of the backing file closed it first, so the pipe's own clean-up
+	// (truncate) fails; everything the property says about a closed reader side must hold all the same
+	FileFirst bool `json:"backing_file_closed_first,omitempty"`
 }
 
 type opResult struct {
@@ -534,6 +537,13 @@ func runScript(r *res.R, prog *c09prog, scratch string) {
 				}
 			}
 		case opRClose:
+			if op.FileFirst && f != nil && !m.rclosed {
+				f.Close()
+				r.Count("reader_closes_after_the_backing_file_was_closed", 1)
+				if pw != nil {
+					r.Count("reader_closes_after_the_backing_file_was_closed_with_a_parked_writer", 1)
+				}
+			}
 			if op.Custom {
 				rd.CloseWithError(errCustomR)
 			} else {
@@ -639,9 +649,35 @@ func genScript(rng *prng.R, backend string, capacity int) *c09prog {
 				op.Kind = opBuffered
 			}
 		}
+		if backend == "file" && op.Kind == opRClose {
+			op.FileFirst = rng.Bool()
+		}
 		op.Name = opNames[op.Kind]
 		p.Ops = append(p.Ops, op)
 	}
+	return p
+}
+
+// genFailedCleanupScript is the fixed shape "the writer is parked on a full ring (optionally the ring has wrapped), the
+// backing file is closed by its owner, then the reader closes": the close must wake the writer although the pipe's own
+// clean-up fails. A few ordinary operations follow the close.
+func genFailedCleanupScript(rng *prng.R, capacity int) *c09prog {
+	p := &c09prog{Backend: "file", Cap: capacity, Seed: rng.U64() >> 8}
+	add := func(k opKind, n int, custom, ff bool) {
+		p.Ops = append(p.Ops, pipeOp{Kind: k, Name: opNames[k], N: n, Custom: custom, FileFirst: ff})
+	}
+	if rng.Bool() {
+		add(opWrite, capacity/2+rng.Intn(4096), false, false)
+		add(opRead, 4096+rng.Intn(4096), false, false)
+	}
+	add(opWrite, capacity+1+rng.Intn(8192), false, false)
+	add(opBuffered, 0, false, false)
+	add(opRClose, 0, rng.Bool(), true)
+	add(opWrite, 1+rng.Intn(100), false, false)
+	add(opRead, 1+rng.Intn(100), false, false)
+	add(opAvailable, 0, false, false)
+	add(opWClose, 0, rng.Bool(), false)
+	add(opWrite, 1, false, false)
 	return p
 }
 
@@ -666,7 +702,9 @@ func c09scriptChild(raw json.RawMessage, scratch string) {
 	for i := a.Start; i < a.End; i++ {
 		rng := base.At(uint64(i))
 		var prog *c09prog
-		if ex.File {
+		if ex.File && i%4 == 1 {
+			prog = genFailedCleanupScript(rng, rng.Pick(4<<20, 4<<20, 8<<20))
+		} else if ex.File {
 			prog = genScript(rng, "file", rng.Pick(4<<20, 4<<20, 8<<20))
 		} else {
 			prog = genScript(rng, "mem", rng.Pick(4096, 4096, 8192, 12288))
@@ -898,7 +936,7 @@ func c09freeChild(raw json.RawMessage, scratch string) {
 
 func c09(c *wk.Ctx) {
 	r := c.R
-	r.Rule = "Mode A: seeded single-threaded programs of Write/Read/Buffered/Available/Close ops (chunks 0,1,cap-1,cap,cap+1,2cap+3,random; close at any step by either side, nil/custom error) executed one op at a time on helper goroutines; a byte-FIFO model predicts result-or-blocks, blocking/waking decided by goroutine state (parked in sync.Cond.Wait) not by timers; position-coded data. " +
+	r.Rule = "Mode A: seeded single-threaded programs of Write/Read/Buffered/Available/Close ops (chunks 0,1,cap-1,cap,cap+1,2cap+3,random; close at any step by either side, nil/custom error; on the file backend half of the reader closes - and a fixed program shape with the writer parked on a full ring - come after the owner closed the backing file, so the pipe's own clean-up fails) executed one op at a time on helper goroutines; a byte-FIFO model predicts result-or-blocks, blocking/waking decided by goroutine state (parked in sync.Cond.Wait) not by timers; position-coded data. " +
 		"Mode B: free-running writer/reader goroutines with random chunking/yields and a close, under the race detector; stream-prefix + drain-before-error oracle; every fourth memory case runs next to a twin pipe of the same capacity with other content (after earlier pipes of that capacity were closed). Long haul: 2^32 + 3 MiB bytes through one memory pipe that is never empty (capacities 192 KiB / 1 MiB / 12 KiB), every 8 bytes carrying their own stream offset. distinct = (backend, capacity, #blocks, #ring wraps, close kinds)"
 	if c.Replay != "" {
 		replayC09(c)
@@ -951,6 +989,7 @@ func c09(c *wk.Ctx) {
 	r.Floor("ring_wraps", 50)
 	r.Floor("free_bytes", 1000000)
 	r.Floor("free_pipe_pairs_alive_together", 30)
+	r.Floor("reader_closes_after_the_backing_file_was_closed_with_a_parked_writer", 3)
 	r.Floor("long_haul_gib_streamed", 8)
 	r.Assume("blocked/woken is read from runtime.Stack goroutine states ([sync.Cond.Wait]); one writer and one reader goroutine as in the property")
 }
